@@ -63,8 +63,9 @@ def model_line(c, prefix_len, seq=False):
     ops = list(c["ops"])
     if seq:
         ops[-1] = "N:1"
-    return "id=%d shape=x known=0 in=%s ops=%s term=%s avail=%d sched=- fuel=1000000" % (
-        c["id"], ",".join(map(str, range(prefix_len))), ";".join(ops), c["term"], k3.AVAIL)
+    return "id=%d shape=%s known=0 in=%s ops=%s term=%s avail=%d sched=- fuel=1000000" % (
+        c["id"], gen_harness.shape_name("endless", c["chain"]), ",".join(map(str, range(prefix_len))), ";".join(ops),
+        c["term"], k3.AVAIL)
 
 
 def run_k10(tier, seed):
